@@ -79,6 +79,9 @@ def _apply_ops(envs, ops):
 def _env_objects(kind, r):
     """list of environment objects a recipe stands for (fan-out through shuffle(n=k) / branches)"""
     from coba.environments import Environments
+    if kind == "seq":
+        from props.c01_components import SeqEnv
+        return [SeqEnv(r["tag"], r["inters"], r.get("batch"), bool(r.get("fail")))]
     if kind == "toy":
         from props.c01_components import ToyEnv
         base = ToyEnv(r["tag"], r["xs"], r.get("fail_at"), bool(r.get("params_fail")))
@@ -127,7 +130,15 @@ def _env_objects(kind, r):
     return out
 
 
+def _seq_script(L):
+    from props.c06 import mk
+    return [dict(e, free=mk(e.get("free")), kw={k: mk(v) for k, v in e.get("kw", {}).items()}, ip={}, il={}) for e in L["script"]]
+
+
 def _learner(kind, r):
+    if kind == "seq":
+        from props.c06_learners import RecLearner
+        return RecLearner(_seq_script(r), r["fmt"], r["has_score"], "aware", ())
     if kind == "toy":
         from props.c01_components import ToyLearner, ToyLearnerF
         if r.get("finish"):
@@ -172,6 +183,9 @@ def _learner(kind, r):
 
 
 def _evaluator(kind, r):
+    if kind == "seq":
+        from coba.evaluators import SequentialCB
+        return SequentialCB(record=list(r["record"]), learn=r["learn"], eval=r["eval"], seed=r.get("seed"))
     if kind == "toy":
         from props.c01_components import ToyEval
         return ToyEval(r["tag"], r.get("seed"), r.get("fail_at"), bool(r.get("learn", True)), bool(r.get("params_fail")), r.get("skip_mult"), int(r.get("mode", 0)))
@@ -391,12 +405,13 @@ def resumed_run(case, cfg, how, sched, resume):
         with open(path, "w", encoding="utf-8") as f:
             f.write("\n".join(kept) + "\n")
         CobaContext.logger = BasicLogger(sink)
+        trace = []
         if how == "sim" and (cfg[0] > 1 or cfg[1] != 0):
-            cmp.Multiprocessor = make_sim(sched, [])
+            cmp.Multiprocessor = make_sim(sched, trace)
         b = build(case)
         res = b.exp.run(result_file=path, processes=cfg[0], maxchunksperchild=cfg[1], maxtasksperchunk=cfg[2], seed=case["seed"])
         return {"result": canon_result(res), "log": [str(x) for x in sink.items], "old": old, "triples": [list(t) for t in b.triples],
-                "lrn_states": [], "lrn_modified": [], "assign": [], "pre_assign": [], "store_clean": True}
+                "lrn_states": [], "lrn_modified": [], "assign": dense_assign(trace), "pre_assign": [], "store_clean": True}
     finally:
         cmp.Multiprocessor = old_mp
         _ctx_set(saved)
@@ -428,7 +443,13 @@ def old_for_model(old):
     return out
 
 
-def run_once(case, cfg, how="inproc", sched=0, built=None, trace=None, pre=None):
+def _ambient_logger(opts, sink):
+    """the logger the caller has installed before run(): BasicLogger (default) or IndentLogger"""
+    from coba.context import BasicLogger, IndentLogger
+    return IndentLogger(sink) if (opts or {}).get("logger") == "indent" else BasicLogger(sink)
+
+
+def run_once(case, cfg, how="inproc", sched=0, built=None, trace=None, pre=None, opts=None):
     """construct the experiment afresh and run it under cfg=(processes,maxchunksperchild,maxtasksperchunk).
     how: 'inproc' / 'real' use coba unchanged; 'sim' substitutes the permuting simulator.
     pre: an earlier run of the same session — the same recipe constructed and run with another seed / configuration in
@@ -451,7 +472,10 @@ def run_once(case, cfg, how="inproc", sched=0, built=None, trace=None, pre=None)
             finally:
                 cmp.Multiprocessor = old_mp
         # the same process goes on: only the logger is exchanged, store and learning_info are whatever the session left
-        CobaContext.logger = BasicLogger(sink)
+        # opts: the remaining execution parameters of run() — quiet=True (progress messages off; exceptions must still be
+        # reported) and the kind of logger the caller has installed
+        CobaContext.logger = _ambient_logger(opts, sink)
+        quiet = bool((opts or {}).get("quiet"))
         if trace is None:
             trace = []
         b = built or build(case)
@@ -459,9 +483,15 @@ def run_once(case, cfg, how="inproc", sched=0, built=None, trace=None, pre=None)
         multi = cfg[0] > 1 or cfg[1] != 0
         if how == "sim" and multi:
             cmp.Multiprocessor = make_sim(sched, trace)
-        res = b.exp.run(processes=cfg[0], maxchunksperchild=cfg[1], maxtasksperchunk=cfg[2], seed=case["seed"])
+        if quiet:
+            res = b.exp.run(quiet=True, processes=cfg[0], maxchunksperchild=cfg[1], maxtasksperchunk=cfg[2], seed=case["seed"])
+        else:
+            res = b.exp.run(processes=cfg[0], maxchunksperchild=cfg[1], maxtasksperchunk=cfg[2], seed=case["seed"])
         out = {"result": canon_result(res), "log": [str(x) for x in sink.items]}
         out["lrn_states"] = [[getattr(l, "n", None), getattr(l, "acc", None)] for l in b.lrns]
+        if case["kind"] == "seq":
+            out["seq_ints"] = seq_ints(res)
+            out["lrn_states"] = [[l.n_pred, l.n_score] for l in b.lrns]
         out["lrn_modified"] = [x is not None and snapshot(l) != x for l, x in zip(b.lrns, before)]
         out["triples"] = [list(t) for t in b.triples]
         out["assign"] = dense_assign(trace)
@@ -552,11 +582,17 @@ def isolated(fn, *args, timeout=60, **kw):
     return val
 
 
-def run_iso(case, cfg, how="inproc", sched=0, pre=None, resume=None):
+def run_opts(run):
+    """the execution parameters of a run besides (processes, maxchunksperchild, maxtasksperchunk)"""
+    o = {k: run[k] for k in ("quiet", "logger") if run.get(k)}
+    return o or None
+
+
+def run_iso(case, cfg, how="inproc", sched=0, pre=None, resume=None, opts=None):
     slow = how == "real" or (pre or {}).get("how") == "real"
     if resume:
         return isolated(resumed_run, case, cfg, how, sched, resume, timeout=60 if slow else 25)
-    return isolated(run_once, case, cfg, how, sched, pre=pre, timeout=60 if slow else 25)
+    return isolated(run_once, case, cfg, how, sched, pre=pre, opts=opts, timeout=60 if slow else 25)
 
 
 def markers(log_lines):
@@ -564,6 +600,159 @@ def markers(log_lines):
     for line in log_lines:
         ms += MARK.findall(line)
     return sorted(ms)
+
+
+
+# ------------------------------------------------------------------ phase 4: the `seq` kind (built-in SequentialCB, model-predicted)
+def seq_ints(res):
+    """interaction rows of a real Result in C06's canonical form (None / Missing cells dropped)"""
+    from coba.results.core import Missing
+    from props.c06 import cn
+    out = []
+    for d in res.interactions.to_dicts():
+        key = [d.pop("environment_id"), d.pop("learner_id"), d.pop("evaluator_id"), d.pop("index")]
+        row = sorted([[str(k), cn(v)] for k, v in d.items() if v is not Missing and v is not None and k not in TIMING], key=lambda kv: kv[0])
+        out.append(key + [row])
+    return out
+
+
+def observe_seq(case):
+    """the `SeqWorld` of a seq case: params observed on a fresh construction, interactions / scripts translated by C06's
+    `model_request`"""
+    from coba.safety import SafeEnvironment, SafeLearner, SafeEvaluator
+    from props import c06
+    saved = _ctx_get()
+    try:
+        _ctx_set(_fresh_process_ctx())
+        b = build(case)
+        dummy_l = case["lrns"][0]
+        envs, lrns, vals = [], [], []
+        for e, r in zip(b.envs, case["envs"]):
+            mr = c06.model_request({"cfg": {"learn": "on", "eval": "on", "record": []}, "learner": dict(dummy_l, kw_keys=()), "env": {"inters": r["inters"]}})
+            envs.append({"params": json.dumps(_plain(dict(SafeEnvironment(e).params)), sort_keys=True), "chunk": None,
+                         "inters": None if r.get("fail") else mr["env"], "batch": r.get("batch")})
+        for l, r in zip(b.lrns, case["lrns"]):
+            mr = c06.model_request({"cfg": {"learn": "on", "eval": "on", "record": []}, "learner": dict(r, kw_keys=()), "env": {"inters": []}})
+            lrns.append({"params": json.dumps(_plain(dict(SafeLearner(l).params)), sort_keys=True), "has_score": bool(r["has_score"]),
+                         "script": mr["learner"]["script"]})
+        for v, r in zip(b.vals, case["vals"]):
+            vals.append({"params": json.dumps(_plain(dict(SafeEvaluator(copy.deepcopy(v)).params)), sort_keys=True), "seed": r.get("seed"),
+                         "cfg": {"learn": r["learn"], "eval": r["eval"], "record": list(r["record"])}})
+        return {"seq": True, "envs": envs, "lrns": lrns, "vals": vals, "triples": [list(t) for t in b.triples]}
+    finally:
+        _ctx_set(saved)
+
+
+def compare_seq(driver, case, obs, run, o, label=""):
+    """(A) for the seq kind: the real Result of Experiment.run over the built-in SequentialCB against `run (seqComps w)`
+    of the driver (tables, interaction rows cell by cell, logged exceptions, learner objects); (C) model = spec"""
+    from props import c06
+    fails = []
+    picks = [Rng(run["sched"], "picks", i).below(97) for i in range(12)]
+    ans = driver.ask(dict(obs, seed=case["seed"], cfg=run["cfg"], picks=picks))
+    model = ans["model"]
+    where = "%scfg %s (%s)" % (label, run["cfg"], run["how"])
+    mv = model_view(o["result"])
+    for part in ("exp", "envs", "lrns", "vals"):
+        if mv[part] != model[part]:
+            fails.append(F("A", "%s: table %s of the real Result %s differs from the model's %s" % (where, part, json.dumps(mv[part])[:300], json.dumps(model[part])[:300]), "A:seq:" + part))
+            return fails, ans
+    got = o["seq_ints"]
+    exp = [[x[0], x[1], x[2], x[3], [kv for kv in c06.model_row(x[4]) if kv[1] is not None]] for x in model["ints"]]
+    if [g[:4] for g in got] != [e[:4] for e in exp]:
+        fails.append(F("A", "%s: interaction keys/indexes of the real Result %s differ from the model's %s" % (
+            where, json.dumps([g[:4] for g in got])[:300], json.dumps([e[:4] for e in exp])[:300]), "A:seq:int-keys"))
+    else:
+        for g, e in zip(got, exp):
+            gr = c06.impl_row_for_A(g[4])
+            if [k for k, _ in gr] != [k for k, _ in e[4]] or not all(c06.ceq(x[1], y[1], tol=x[0] in ("reward", "rewards")) for x, y in zip(gr, e[4])):
+                fails.append(F("A", "%s: row %s of the real Result %s differs from SequentialCB's model row %s" % (
+                    where, g[:4], json.dumps(gr)[:300], json.dumps(e[4])[:300]), "A:seq:rows"))
+                break
+    if ans["model"] != ans["spec"]:
+        fails.append(F("C", "model: run (seqComps) %s differs from resultS" % (run["cfg"],), "C:run_eq_spec_sequentialCB"))
+    nexc = len([l for l in o["log"] if "Exception" in l or "Error" in l or "TOYFAIL" in l or "Traceback" in l])
+    n_markers = len(markers(o["log"]))
+    n_rej = sum(bool(re.search(r"SequentialCB\(.*\) requires ", l)) for l in o["log"])
+    if n_markers + n_rej != len(ans["log"]):
+        fails.append(F("A", "%s: %d failing reads + %d rejected environments in the log, the model expects %d failing tasks %s" % (
+            where, n_markers, n_rej, len(ans["log"]), ans["log"]), "A:seq:log"))
+    if not any(r.get("fail") for r in case["envs"]) and o["lrn_states"] != ans["heap"]:
+        fails.append(F("A", "%s: learner objects (script positions) after run %s, model %s" % (where, o["lrn_states"], ans["heap"]), "A:seq:heap"))
+    return fails, ans
+
+
+def seq_directed_cases():
+    """phase 4 corpus: one scripted learner object shared by environments and SequentialCB objects (on-policy, off-policy,
+    IPS, predict-only), a learner used once (evaluated in place), a failing read and an environment the off-policy
+    evaluator rejects — every row predicted by `run (seqComps w)`"""
+    def q(a, b):
+        return {"f": [a, b]}
+    sim = [[["context", i], ["actions", {"l": ["a", "b", "c"]}], ["rewards", {"l": [q(i % 3, 2), q(1, 4), 1]}]] for i in range(4)]
+    log = [[["context", "c%d" % i], ["actions", {"l": [0, 1]}], ["rewards", {"l": [q(1, 2), q(i % 2, 1)]}],
+            ["action", i % 2], ["reward", q(i, 4)], ["probability", q(1, 2)]] for i in range(5)]
+    envs = [{"tag": 0, "inters": sim, "batch": None, "fail": False}, {"tag": 1, "inters": log, "batch": None, "fail": False},
+            {"tag": 2, "inters": sim[:2], "batch": None, "fail": True}]
+    lrns = [{"script": [{"idx": 0, "free": None, "p": [1, 2], "kw": {}, "s": [1, 2]}, {"idx": 1, "free": None, "p": [1, 4], "kw": {}, "s": [1, 4]},
+                        {"idx": 2, "free": None, "p": [1, 1], "kw": {}, "s": [1, 2]}], "fmt": "AP", "has_score": False},
+            {"script": [{"idx": 1, "free": None, "p": [3, 4], "kw": {}, "s": [1, 4]}, {"idx": 0, "free": None, "p": [1, 4], "kw": {}, "s": [1, 2]}],
+             "fmt": "dAP", "has_score": True}]
+    vals = [{"record": ["reward", "action", "probability"], "learn": "on", "eval": "on", "seed": None},
+            {"record": ["reward", "action", "probability", "context"], "learn": "off", "eval": "ips", "seed": None},
+            {"record": ["reward", "rewards", "actions"], "learn": "ips", "eval": "on", "seed": None},
+            {"record": ["action", "probability"], "learn": None, "eval": "on", "seed": None}]
+    base = {"kind": "seq", "seed": 1, "envs": envs, "lrns": lrns, "vals": vals}
+    runs = [{"cfg": [1, 0, 0], "how": "inproc", "sched": 0}, {"cfg": [2, 1, 2], "how": "sim", "sched": 5}, {"cfg": [1, 0, 3], "how": "inproc", "sched": 0, "quiet": True}]
+    return [dict(base, mode="product", pe=[0, 1, 2], pl=[0, 1], pv=[0, 1, 2, 3], runs=runs, rerun=True),
+            dict(base, mode="tuples", triples=[[0, 0, 0], [1, 0, 1], [0, 1, 0], [1, 0, 2], [0, 0, 0], [2, 1, 3], [1, 1, 1]],
+                 runs=runs[:2] + [{"cfg": [2, 0, 0], "how": "real", "sched": 0}])]
+
+
+def gen_seq(rng, tier, real_p=0.02):
+    """an experiment over in-memory environments x scripted learners x built-in SequentialCB objects, in C06's case format"""
+    def q(a, b):
+        return {"f": [a, b]}
+    act_pool = [["a", "b", "c"], [0, 1], [{"l": [1, 0]}, {"l": [0, 1]}], ["x", 7, "y", 2]]
+    envs = []
+    for t in range(rng.choice([1, 2, 2, 3])):
+        acts = rng.choice(act_pool)
+        n = rng.choice([0, 1, 2, 3, 4, 5, 7])
+        logged = rng.chance(0.35)
+        inters = []
+        for i in range(n):
+            ctx = rng.choice([None, i, "c%d" % i, {"l": [i, 1]}])
+            rw = [q(rng.below(5), 4) for _ in acts]
+            pairs = [["context", ctx], ["actions", {"l": list(acts)}], ["rewards", {"l": rw}]]
+            if logged:
+                pairs += [["action", acts[rng.below(len(acts))]], ["reward", q(rng.below(5), 4)], ["probability", q(1, rng.choice([1, 2, 4]))]]
+            inters.append(pairs)
+        envs.append({"tag": t, "inters": inters, "batch": rng.choice([None, None, None, None, None]), "fail": rng.chance(0.12)})
+    lrns = []
+    for t in range(rng.choice([1, 2, 2, 3])):
+        script = [{"idx": rng.below(6), "free": None, "p": rng.choice([[1, 1], [1, 2], [1, 4], [3, 4]]), "kw": {}, "s": [1, rng.choice([2, 4])]}
+                  for _ in range(rng.choice([1, 2, 3, 5]))]
+        lrns.append({"script": script, "fmt": rng.choice(["AP", "AP", "A", "dAP"]), "has_score": rng.chance(0.3)})
+    vals = []
+    for t in range(rng.choice([1, 1, 2, 3])):
+        rec = [k for k in ["reward", "action", "probability", "context", "actions", "rewards"] if rng.chance(0.55)] or ["reward"]
+        learn, ev = rng.choice([("on", "on"), ("on", "on"), ("on", "on"), ("off", "on"), ("ips", "on"), (None, "on"), ("off", "ips"), ("on", None)])
+        vals.append({"record": rec, "learn": learn, "eval": ev, "seed": None})
+    case = {"kind": "seq", "seed": rng.choice([1, 2, 7]), "envs": envs, "lrns": lrns, "vals": vals}
+    ne, nl, nv = len(envs), len(lrns), len(vals)
+    if rng.chance(0.5):
+        case.update(mode="product", pe=list(range(ne)), pl=rng.shuffle(list(range(nl))), pv=list(range(nv)))
+    else:
+        k = rng.choice([2, 3, 4, 5])
+        case.update(mode="tuples", triples=[[rng.below(ne), rng.below(nl), rng.below(nv)] for _ in range(k)])
+    runs = [{"cfg": [1, 0, 0], "how": "inproc", "sched": 0}]
+    for _ in range(rng.choice([1, 2, 2])):
+        cfg = gen_cfg(rng)
+        multi = cfg[0] > 1 or cfg[1] != 0
+        runs.append({"cfg": cfg, "how": "inproc" if not multi else ("real" if rng.chance(real_p) else "sim"), "sched": rng.randint(0, 10 ** 6)})
+    case["runs"] = runs
+    if rng.chance(0.3):
+        case["rerun"] = True
+    return tame_real_runs(case)
 
 
 # ------------------------------------------------------------------ observing the components (toy cases)
@@ -703,16 +892,22 @@ def compare_with_model(driver, case, obs, run, o, label=""):
     fails = []
     picks = [Rng(run["sched"], "picks", i).below(97) for i in range(12)]
     if run.get("resume"):
-        # (A) for a resumed run: `runResumed` on the records that were kept in the log (σ-free model, plain cases only)
-        ans = driver.ask(dict(obs, seed=case["seed"], cfg=run["cfg"], picks=picks, old=old_for_model(o["old"])))
+        # (A) for a resumed run: `runResumedPFrom` (phase 4: process state, worker lifetimes, un-copyable learners; started in the
+        # state the log-writing in-process run left behind) on the records that were kept in the log; plain cases also `runResumed`
+        ans = driver.ask(dict(obs, seed=case["seed"], cfg=run["cfg"], picks=picks, assign=o.get("assign", []), old=old_for_model(o["old"])))
         mv = model_view(o["result"])
-        for part in ("exp", "envs", "lrns", "vals", "ints"):
-            if mv[part] != ans["resumed"]["result"][part]:
-                fails.append(F("A", "%sresumed run, cfg %s (%s): table %s of the real Result %s differs from the model's %s" % (
-                    label, run["cfg"], run["how"], part, json.dumps(mv[part])[:300], json.dumps(ans["resumed"]["result"][part])[:300]), "A:resumed:" + part))
-                break
-        if ans["resumed"]["result"] != ans["spec_plain"]:
+        for name in (("result", "resultP") if is_plain(case) else ("resultP",)):
+            for part in ("exp", "envs", "lrns", "vals", "ints"):
+                if mv[part] != ans["resumed"][name][part]:
+                    fails.append(F("A", "%sresumed run, cfg %s (%s): table %s of the real Result %s differs from the model's (%s) %s" % (
+                        label, run["cfg"], run["how"], part, json.dumps(mv[part])[:300], name, json.dumps(ans["resumed"][name][part])[:300]),
+                        "A:resumed%s:%s" % ("P" if name == "resultP" else "", part)))
+                    break
+        if is_plain(case) and ans["resumed"]["result"] != ans["spec_plain"]:
             fails.append(F("C", "model: runResumed %s differs from resultS" % (run["cfg"],), "C:run_eq_spec_restored"))
+        if ans["hyp"] and ans["resumed"]["resultP"] != ans["spec"]:
+            fails.append(F("C", "model: runResumedPFrom %s differs from resultSP although the components are process-local clean" % (run["cfg"],),
+                           "C:run_eq_spec_restored_process_state"))
         return fails, ans
     req = dict(obs, seed=case["seed"], cfg=run["cfg"], picks=picks, assign=o.get("assign", []))
     if run.get("pre"):
@@ -909,6 +1104,19 @@ def gen_runs(rng, tier, real_p, n_alt, seed=1):
                           "how": "inproc" if not pmulti else ("real" if how == "real" else "sim")}
         runs.append(run)
     return runs
+
+
+def add_run_opts(rng, case, p_quiet=0.3, p_indent=0.2):
+    """execution parameters of run() besides processes / maxchunksperchild / maxtasksperchunk: quiet=True and the kind of
+    logger the caller installed (drawn after the recipe, so the recipe stream of a seed is unchanged)"""
+    for k, run in enumerate(case["runs"]):
+        if run.get("resume"):
+            continue
+        if rng.chance(p_quiet):
+            run["quiet"] = True
+        if rng.chance(p_indent):
+            run["logger"] = "indent"
+    return case
 
 
 def tame_real_runs(case):
@@ -1245,6 +1453,104 @@ MAX_RUNS = 5          # configurations per case
 CASE_BUDGET = 30      # seconds after which no further run of a case is started
 
 
+
+# ------------------------------------------------------------------ translator: small predicates of the source -> Lean
+class _NoTranslation(Exception):
+    pass
+
+
+def _py_to_lean(node, names):
+    """a Python boolean expression over integer variables (comparisons, and / or / not, int literals; `self._x` / `x[...]`
+    read as variables) as a Lean `Bool` term; `names` maps a source identifier to the Lean parameter"""
+    import ast
+    if isinstance(node, ast.BoolOp):
+        op = " || " if isinstance(node.op, ast.Or) else " && "
+        return "(" + op.join(_py_to_lean(v, names) for v in node.values) + ")"
+    if isinstance(node, ast.UnaryOp) and isinstance(node.op, ast.Not):
+        return "(!" + _py_to_lean(node.operand, names) + ")"
+    if isinstance(node, ast.Compare) and len(node.ops) == 1:
+        ops = {ast.Gt: ">", ast.Lt: "<", ast.GtE: "≥", ast.LtE: "≤", ast.Eq: "=", ast.NotEq: "≠"}
+        if type(node.ops[0]) not in ops:
+            raise _NoTranslation(ast.dump(node))
+        return "decide (%s %s %s)" % (_py_to_lean(node.left, names), ops[type(node.ops[0])], _py_to_lean(node.comparators[0], names))
+    if isinstance(node, ast.Constant) and isinstance(node.value, int) and not isinstance(node.value, bool) and node.value >= 0:
+        return str(node.value)
+    if isinstance(node, ast.Name) and node.id in names:
+        return names[node.id]
+    if isinstance(node, ast.Attribute) and node.attr in names:
+        return names[node.attr]
+    if isinstance(node, ast.Subscript) and isinstance(node.value, ast.Name) and node.value.id in names:
+        return names[node.value.id]
+    raise _NoTranslation(ast.dump(node)[:80])
+
+
+def extract_config_predicates(repo):
+    """(lean definitions, notes): `is_multiproc` of Experiment.run, the in-process test of CobaMultiprocessor.filter and the
+    `copy=` argument of the evaluation Task in MakeTasks.read, read from the CURRENT source with `ast`"""
+    import ast
+    defs, notes = {}, []
+
+    def src(*parts):
+        return ast.parse(open(os.path.join(repo, "coba", *parts), encoding="utf-8").read())
+    # 1. is_multiproc = mp > 1 or mc != 0
+    try:
+        node = next(n for n in ast.walk(src("experiments", "core.py")) if isinstance(n, ast.Assign)
+                    and any(isinstance(t, ast.Name) and t.id == "is_multiproc" for t in n.targets))
+        defs["isMultiproc"] = _py_to_lean(node.value, {"mp": "mp", "mc": "mc"})
+    except (StopIteration, _NoTranslation, OSError, SyntaxError) as e:
+        notes.append("is_multiproc not extracted: %r" % (e,))
+    # 2. if self._maxtasksperchild == 0 and self._processes == 1: (run in this process)
+    try:
+        cls = next(n for n in ast.walk(src("multiprocessing.py")) if isinstance(n, ast.ClassDef) and n.name == "CobaMultiprocessor")
+        fn = next(n for n in cls.body if isinstance(n, ast.FunctionDef) and n.name == "filter")
+        test = next(n.test for n in ast.walk(fn) if isinstance(n, ast.If) and "_maxtasksperchild" in ast.dump(n.test))
+        defs["inProcess"] = _py_to_lean(test, {"_processes": "mp", "_maxtasksperchild": "mc"})
+    except (StopIteration, _NoTranslation, OSError, SyntaxError) as e:
+        notes.append("in-process test not extracted: %r" % (e,))
+    # 3. Task((eid,env),(lid,lrn),(vid,val),copy=learner_counts[lrn]>1)
+    try:
+        cls = next(n for n in ast.walk(src("experiments", "process.py")) if isinstance(n, ast.ClassDef) and n.name == "MakeTasks")
+        call = next(n for n in ast.walk(cls) if isinstance(n, ast.Call) and isinstance(n.func, ast.Name) and n.func.id == "Task"
+                    and any(k.arg == "copy" for k in n.keywords))
+        kw = next(k for k in call.keywords if k.arg == "copy")
+        counter = kw.value.left.value.id if isinstance(kw.value, ast.Compare) and isinstance(kw.value.left, ast.Subscript) and isinstance(kw.value.left.value, ast.Name) else None
+        defs["copyFlag"] = _py_to_lean(kw.value, {counter: "count"})
+        # the counter must count the learner objects of the triple list: Counter([l for _,l,_ in self._triples])
+        cnt = next(n for n in ast.walk(cls) if isinstance(n, ast.Assign) and any(isinstance(t, ast.Name) and t.id == counter for t in n.targets))
+        comp = cnt.value.args[0]
+        ok = (isinstance(cnt.value, ast.Call) and getattr(cnt.value.func, "id", "") == "Counter" and isinstance(comp, (ast.ListComp, ast.GeneratorExp))
+              and isinstance(comp.elt, ast.Name) and isinstance(comp.generators[0].target, ast.Tuple)
+              and [getattr(e, "id", None) for e in comp.generators[0].target.elts].index(comp.elt.id) == 1 and not comp.generators[0].ifs)
+        defs["copyCountsLearners"] = "true" if ok else "false"
+    except (StopIteration, _NoTranslation, OSError, SyntaxError, AttributeError, IndexError, ValueError, KeyError) as e:
+        notes.append("copy flag not extracted: %r" % (e,))
+    return defs, notes
+
+
+def write_generated_config(repo):
+    from core import lean
+    defs, notes = extract_config_predicates(repo)
+    fallback = {"isMultiproc": "(decide (mp > 1) || decide (mc ≠ 0))", "inProcess": "(decide (mc = 0) && decide (mp = 1))",
+                "copyFlag": "decide (count > 1)", "copyCountsLearners": "true"}
+    extracted = all(k in defs for k in fallback)
+    d = dict(fallback, **defs)
+    body = ("-- GENERATED by harness/props/c01.py from coba/experiments/core.py, coba/multiprocessing.py and coba/experiments/process.py\n"
+            "-- on every run (Python `ast`); do not edit.  Props/C01.lean proves that the model's `Cfg.multi` and `copy` flag are these.\n"
+            "namespace Coba.Generated.C01\n"
+            "/-- `is_multiproc` of Experiment.run -/\ndef isMultiproc (mp mc : Nat) : Bool := %s\n"
+            "/-- the test under which CobaMultiprocessor.filter runs the filter in the calling process -/\ndef inProcess (mp mc : Nat) : Bool := %s\n"
+            "/-- `copy=` of the evaluation Task in MakeTasks.read, as a function of the Counter entry -/\ndef copyFlag (count : Nat) : Bool := %s\n"
+            "/-- the Counter counts the learner objects (middle components) of all listed triples -/\ndef copyCountsLearners : Bool := %s\n"
+            "def extracted : Bool := %s\nend Coba.Generated.C01\n" % (d["isMultiproc"], d["inProcess"], d["copyFlag"], d["copyCountsLearners"], "true" if extracted else "false"))
+    path = os.path.join(lean.LEAN_DIR, "CobaVerif", "Generated", "C01Config.lean")
+    old = open(path, encoding="utf-8").read() if os.path.exists(path) else None
+    if old != body:
+        os.makedirs(os.path.dirname(path), exist_ok=True)
+        with open(path, "w", encoding="utf-8") as f:
+            f.write(body)
+    return notes + ["C01Config: isMultiproc := %s; inProcess := %s; copyFlag := %s; extracted=%s" % (d["isMultiproc"], d["inProcess"], d["copyFlag"], extracted)]
+
+
 class C01(Property):
     id = "C01"
     prop_modules = ["CobaVerif.Props.C01"]
@@ -1259,7 +1565,9 @@ class C01(Property):
             "workers); runs may be preceded by an earlier run of the same session in the same process; toy learners may write "
             "CobaContext.learning_info, toy evaluators ignore / clear+flush / only flush it (the last = not process-local clean: model "
             "prediction only), toy learners may be un-copyable or carry a finish() hook; 12 % of the non-base runs are interrupted-and-"
-            "resumed runs (result file, part of the record lines kept, second run) compared with runResumed of the model; non-trivial = at least two configurations compared and at least one "
+            "resumed runs (result file, part of the record lines kept, second run) compared with runResumed / runResumedPFrom of the model; 10 % of the cases are of "
+            "the seq kind (in-memory environments x scripted learners x built-in SequentialCB objects; the whole Result is predicted by run (seqComps w)); every run "
+            "draws quiet=True (30 %) and the caller's logger kind (20 % IndentLogger); non-trivial = at least two configurations compared and at least one "
             "interaction row recorded")
     trusted_base = [
         "components are deterministic functions of their own object state, the seed and — since phase 2 — an explicit process state σ "
@@ -1276,16 +1584,22 @@ class C01(Property):
                    "the byte-level codec are C02's subject); run_eq_spec_restored covers any subset of finished tasks in any order"]
     partial_theorems = {}
 
+    def pre_build(self):
+        # translator tie: regenerate lean/CobaVerif/Generated/C01Config.lean from the CURRENT source of the repo under test
+        return write_generated_config(os.environ.get("COBA_REPO", "/repo"))
+
     def generate(self, rng, tier):
         real_p = 0.022 if tier == "quick" else 0.006
         if rng.chance(0.72):
-            return gen_toy(rng, tier, real_p)
-        return gen_builtin(rng, tier, real_p)
+            if rng.chance(0.14):
+                return add_run_opts(rng, gen_seq(rng, tier, real_p))       # phase 4: built-in SequentialCB, model-predicted
+            return add_run_opts(rng, gen_toy(rng, tier, real_p))
+        return add_run_opts(rng, gen_builtin(rng, tier, real_p))
 
     def search(self, rng, tier):
         if rng.chance(0.8):
-            return gen_toy(rng, tier, 0.0, fail_bias=2.0, share_bias=2.0)
-        return gen_builtin(rng, tier, 0.0)
+            return add_run_opts(rng, gen_toy(rng, tier, 0.0, fail_bias=2.0, share_bias=2.0))
+        return add_run_opts(rng, gen_builtin(rng, tier, 0.0))
 
     def corpus(self):
         cs = []
@@ -1309,6 +1623,7 @@ class C01(Property):
         # fixed finding F2 (e4fe683): logged environment behind shuffle(n=2); the peek of the parameter task must not change later reads
         cs.append({"envs": [{"branches": [[["shuffle", 2]]], "log_seed": 3, "logged": True, "n": 8, "na": 3, "prefix": [], "seed": 5, "src": "linear"}], "kind": "builtin", "lrns": [{"tag": 0, "type": "kwargs"}, {"tag": 1, "type": "kwargs"}, {"eps": 0.05, "seed": 4, "type": "eps"}], "mode": "product", "pe": [1], "pl": [2], "pv": [0], "runs": [{"cfg": [1, 0, 0], "how": "inproc", "sched": 0}, {"cfg": [2, 0, 0], "how": "sim", "sched": 296675}], "seed": 2, "single_eval": True, "vals": [{"eval": "ips", "learn": "off", "record": ["reward"], "seed": 2, "type": "seq"}]})
         cs += directed_cases()
+        cs += seq_directed_cases()
         # built-in components
         cs.append({"kind": "builtin", "seed": 1, "envs": [{"src": "linear", "n": 12, "na": 3, "seed": 2, "prefix": [["chunk"]], "branches": [[["shuffle", 2]]]}],
                    "lrns": [{"type": "eps", "eps": 0.1, "seed": 1}, {"type": "pmf", "tag": 1}, {"type": "kwargs", "tag": 2}],
@@ -1336,7 +1651,7 @@ class C01(Property):
                 runs = runs[:k]
                 break
             try:
-                o = run_iso(case, run["cfg"], run["how"], run["sched"], run.get("pre"), run.get("resume"))
+                o = run_iso(case, run["cfg"], run["how"], run["sched"], run.get("pre"), run.get("resume"), run_opts(run))
             except RunTimeout as e:
                 # never a verdict about the property: reported as infrastructure, the remaining runs are dropped
                 fails.append(F("T", "cfg %s (%s): %s" % (run["cfg"], run["how"], e), "timeout"))
@@ -1349,6 +1664,7 @@ class C01(Property):
             if run.get("resume"):
                 tags.append("resumed-run")
             tags.append("how:" + run["how"])
+            tags += ["run:" + k for k in ("quiet", "logger") if run.get(k)]
             multi = run["cfg"][0] > 1 or run["cfg"][1] != 0
             tags.append("cfg:%s%s%s" % ("multi" if multi else "inproc", ",mc>0" if run["cfg"][1] else "", ",mt>0" if run["cfg"][2] else ""))
         if not outs:
@@ -1411,13 +1727,29 @@ class C01(Property):
                 if leaky and (run["how"] == "real" or (run.get("pre") or {}).get("how") == "real"):
                     continue        # which worker pulled which chunk is only known for the simulator
                 if run.get("resume") and not is_plain(case):
-                    continue        # the model of resumed runs is the σ-free one
+                    tags.append("resumed-run:process-state-model")      # phase 4: `runResumedPFrom`
                 fs, ans = compare_with_model(driver, case, obs, run, o)
                 fails += fs
                 model = ans["model"]
                 d = chunk_check(case, run["cfg"][2], ans["chunks"])
                 if d:
                     fails.append(F("A", "maxtasksperchunk %d: %s" % (run["cfg"][2], d), "A:chunks"))
+        if driver is not None and kind == "seq":
+            obs = observe_seq(case)
+            for run, o in zip(runs, outs):
+                fs, ans = compare_seq(driver, case, obs, run, o)
+                fails += fs
+                model = {"ints": len(ans["model"]["ints"])}
+                d = chunk_check(case, run["cfg"][2], ans["chunks"])
+                if d:
+                    fails.append(F("A", "maxtasksperchunk %d: %s" % (run["cfg"][2], d), "A:chunks"))
+            tags.append("seq:rows=%s" % ("0" if not outs[0]["seq_ints"] else "1-5" if len(outs[0]["seq_ints"]) <= 5 else ">5"))
+            for r in case["vals"]:
+                tags.append("seq:learn=%s,eval=%s" % (r["learn"], r["eval"]))
+            tags += ["seq:batched-env"] * any(r.get("batch") for r in case["envs"]) + ["seq:failing-read"] * any(r.get("fail") for r in case["envs"])
+            tags += ["seq:rejected"] * any(") requires " in l for l in outs[0]["log"])
+            if len(set(map(tuple, outs[0]["triples"]))) < len(outs[0]["triples"]) or len({t[1] for t in outs[0]["triples"]}) < len(outs[0]["triples"]):
+                tags.append("seq:shared-learner")
         return {"fails": fails, "nontrivial": len(runs) >= 2 and nrows > 0, "tags": tags,
                 "impl": {"base": base if len(json.dumps(base)) < 4000 else "(large)", "rows": nrows}, "model": model}
 
